@@ -46,5 +46,14 @@ Missing == {[k |-> "missing", type |-> "P1", doc |-> <<83, 58, 32, 120, LF>>, co
             [k |-> "missing", type |-> "P2", doc |-> <<82, 101, 113, 73, 58, 32, 51, LF, 82, 101, 113, 45, 66, 58, 32, 110, 111, LF>>, complete |-> TRUE],
             [k |-> "missing", type |-> "P3", doc |-> <<76, 58, 32, 97, LF>>, complete |-> FALSE],
             [k |-> "missing", type |-> "P4", doc |-> <<86, 58, 32, 49, LF>>, complete |-> FALSE]}
-ASSUME Emit(SetToSeq(Desc) \o SetToSeq(RT \cup Pass \cup Missing))
+\* one receiver, two documents: a "full" first value, every value as the second
+Full1 == [S |-> ab, Renamed |-> <<114>>, Req |-> <<113>>, Skip |-> <<>>, Multi |-> <<111, 110, 101>>]
+Full2 == [I |-> -7, U |-> 5, B |-> TRUE, ReqI |-> 3, ReqB |-> TRUE]
+Full3 == [L |-> <<<<97>>, <<98, SP, 99>>>>, LS |-> <<x, <<121, SP, 122>>>>, Sp |-> <<<<112>>, <<113>>>>, ReqL |-> <<<<114>>, <<115>>>>, IL |-> <<0, -2>>]
+Full4 == [V |-> ver1, D |-> dep1, A |-> amd64, As |-> <<any, i386>>, H |-> <<h1, h2>>, RV |-> <<49, 46, 48>>]
+RT2 == {[k |-> "rt2", type |-> "P1", first |-> Full1, second |-> v] : v \in Rec1}
+       \cup {[k |-> "rt2", type |-> "P2", first |-> Full2, second |-> v] : v \in Rec2}
+       \cup {[k |-> "rt2", type |-> "P3", first |-> Full3, second |-> v] : v \in Rec3}
+       \cup {[k |-> "rt2", type |-> "P4", first |-> Full4, second |-> v] : v \in Rec4}
+ASSUME Emit(SetToSeq(Desc) \o SetToSeq(RT \cup Pass \cup Missing) \o SetToSeq(RT2))
 =============================================================================
